@@ -71,11 +71,15 @@ where
                 // Check if we should inject an error
                 if config.error_injector.error_rate() > 0.0 {
                     error_roll = rng.random();
+                    #[cfg(feature = "verif-hooks")]
+                    tower_resilience_core::verif::log_draw(0, error_roll.to_bits());
                 }
 
                 // Check if we should inject latency (only if not injecting error)
                 if config.latency_rate > 0.0 && error_roll >= config.error_injector.error_rate() {
                     let latency_roll: f64 = rng.random();
+                    #[cfg(feature = "verif-hooks")]
+                    tower_resilience_core::verif::log_draw(1, latency_roll.to_bits());
                     should_inject_latency = latency_roll < config.latency_rate;
 
                     if should_inject_latency {
@@ -86,6 +90,8 @@ where
                         } else {
                             min_ms
                         };
+                        #[cfg(feature = "verif-hooks")]
+                        tower_resilience_core::verif::log_draw(2, delay_ms);
                         latency_duration = Duration::from_millis(delay_ms);
                     }
                 }
